@@ -22,7 +22,7 @@ func init() {
 			"R5: the expirable wrapper removes and re-creates exactly on the GetExpiresAt().Before(now) edge and returns the value unchanged otherwise. " +
 			"R6: from the found edge of items.Get(k) every path to the return passes items.Remove(k) and then items.Add(k, same value). R7: from the success edge of the create call every path to an exit inserts the value. " +
 			"Equivalent forms are accepted: the callback invoked through a nil-safe invoker method of the callback type; entries and keys handed through local copies or the parameters of a private helper; state kept in flags or in the nil-ness of a variable (path queries carry a valuation); the eviction moved into a private helper that GetOrCreate runs under the guard; the staleness test spelled now.After(expiry) or placed in a predicate helper. " +
-			"M1-M8: the ordered map keeps its list consistent (the rules of C10), since eviction order is the list order. R8: the expiry wrapper does not apply its staleness test to the result of GetOrCreate (which may be the value this call created) followed by an unconditional Remove of the key in a separate critical section (open finding).",
+			"M1-M8: the ordered map keeps its list consistent (the rules of C10), since eviction order is the list order. R8: the expiry wrapper does not apply its staleness test to the result of GetOrCreate (which may be the value this call created) followed by an unconditional Remove of the key in a separate critical section (open finding). R5 also: the clock the staleness test of the expirable wrapper uses is read before the lookup (the lookup may be the miss that creates the item). M12: the pointer surgery of the list's unlink routine (see C10.R12).",
 		NotDecided: "refinement of a reference LRU over all call sequences; callback accounting as a count.",
 	})
 	register(&Check{
@@ -34,7 +34,7 @@ func init() {
 			"R2: the create call is reached only by the goroutine that registered the in-flight entry; from the registration every path to an exit closes the channel and deletes the entry, in the same critical section as the insert; the in-flight table is written only by registration, by that cleanup and by the constructor. " +
 			"R3: waiting for an in-flight creation and the create call itself run with the lock released, and a waiter goes back to the lookup. " +
 			"R4: every insert on the miss path is followed, before the lock is released, by the capacity test. R5: the delete callback runs under the mutex in the critical section of the removal it reports. " +
-			"Locksets see through private helpers that are only called with the mutex held and through literals run by a withLock-style wrapper; the in-flight table may map a key to the bare channel or to a record holding it (absence tested by comma-ok or, when only non-nil records are stored, by nil). Q1-Q7: the sequential LRU rules of C08 (a concurrent history must be equivalent to a sequential LRU history).",
+			"Locksets see through private helpers that are only called with the mutex held and through literals run by a withLock-style wrapper; the in-flight table may map a key to the bare channel or to a record holding it (absence tested by comma-ok or, when only non-nil records are stored, by nil). Q1-Q7: the sequential LRU rules of C08 (a concurrent history must be equivalent to a sequential LRU history). M1-M12: the structural rules of the ordered map the cache keeps its recency order in (C10.R1-R12): a list that loses entries evicts the wrong victim and never hands the lost values to the delete callback.",
 		NotDecided: "linearizability of histories; created-versus-deleted balance over schedules.",
 	})
 }
